@@ -339,17 +339,18 @@ impl RegretParams {
             strat.fill(0.0);
             strat[ind] = 1.0;
         } else {
+            // NOTE shift by the largest exponent, which for negative weights isn't the largest regret
             let max = cum_reg
                 .into_floats_mut()
-                .map(|&mut v| v)
+                .map(|&mut v| v * self.no_positive)
                 .reduce(f64::max)
                 .unwrap();
             let norm: f64 = cum_reg
                 .into_floats_mut()
-                .map(|&mut reg| ((reg - max) * self.no_positive).exp())
+                .map(|&mut reg| (reg * self.no_positive - max).exp())
                 .sum();
             for (&mut reg, val) in cum_reg.into_floats_mut().zip(strat.iter_mut()) {
-                *val = ((reg - max) * self.no_positive).exp() / norm;
+                *val = (reg * self.no_positive - max).exp() / norm;
             }
         }
     }
